@@ -145,8 +145,9 @@ exception `err` if one ended it): either nothing was yielded because the sheet h
 the titles cannot be bound; or the sheet is blank rows, the title row, then `data ++ tail` where no
 row of `data` fires the end rule, there are exactly as many results as rows in `data`, the `i`-th
 result is `construct` of the `i`-th row of `data` (with the ladder substitution `curRows`; for a
-plain table that is the row itself), and — if no exception ended the iteration — `data` is
-everything up to the first row the end rule fires on (or the end of the sheet). -/
+plain table that is the row itself), and `data` is everything up to the first row the end rule
+fires on (or the end of the sheet) when no exception ended the iteration, resp. up to the row on
+which the end rule, the ladder substitution or `construct` raised that exception. -/
 theorem one_per_row {V : Type} (cv : Conv V) (cfg : Cfg V) (s : Sheet)
     (objs : List (Option (Obj V))) (err : Option Err) (h : iterTable cv cfg s = ⟨objs, err⟩) :
     (objs = [] ∧ ((∀ r ∈ s, rowEmpty r = true) ∧ err = none ∨ err = some .valueError)) ∨
@@ -155,7 +156,12 @@ theorem one_per_row {V : Type} (cv : Conv V) (cfg : Cfg V) (s : Sheet)
       bindTitles (title.map fun c => titleOf c.val) cfg.rules = .ok slots ∧
       (∀ r ∈ data, endFires cfg.stop r = .ok false) ∧
       (err = none → tail = [] ∨ ∃ t rest, tail = t :: rest ∧ endFires cfg.stop t = .ok true) ∧
-      (∀ e, err = some e → tail ≠ []) ∧
+      (∀ e, err = some e → ∃ t rest, tail = t :: rest ∧
+        (endFires cfg.stop t = .error e ∨
+         (endFires cfg.stop t = .ok false ∧
+          (curRow (ladderPos cfg (title.map fun c => titleOf c.val)) (lastPrev none curs) t = .error e ∨
+           ∃ cur, curRow (ladderPos cfg (title.map fun c => titleOf c.val)) (lastPrev none curs) t = .ok cur ∧
+             construct cv cfg.numId cfg.rules slots cur = .error e)))) ∧
       objs.length = data.length ∧
       curRows (ladderPos cfg (title.map fun c => titleOf c.val)) none data = .ok curs ∧
       (cfg.ladder = false → curs = data) ∧
@@ -207,6 +213,73 @@ theorem value_at_origin {V : Type} (cv : Conv V) (cfg : Cfg V) (s : Sheet)
     refine AttrOk.mono cv _ _ _ _ ?_ r a hok
     intro j c hjc
     exact Holder.append _ data tail i j c hi (curRows_holder _ data curs h9 i curs[i] j c (by simp [hic]) hjc)
+
+/-- `None` results. A data row yields `None` instead of an object only if the class has key
+attributes and either every key attribute is a plain column whose cell for that row (`Holder`) is
+blank (`cell.value is None`), or the object could be built and the value of every key attribute —
+which is what its own origin says (`AttrOk`) — is `None`. -/
+theorem none_result {V : Type} (cv : Conv V) (cfg : Cfg V) (s : Sheet)
+    (objs : List (Option (Obj V))) (err : Option Err) (h : iterTable cv cfg s = ⟨objs, err⟩)
+    (i : Nat) (ho : objs[i]? = some none) :
+    0 < cfg.numId ∧
+    ∃ pre title rest, s = pre ++ title :: rest ∧ (∀ r ∈ pre, rowEmpty r = true) ∧
+      rowEmpty title = false ∧
+      ((∀ k, k < cfg.numId → k < cfg.rules.length →
+          ∃ t ct d j cell, cfg.rules[k]? = some (.col t ct d) ∧
+            (title.map fun c => titleOf c.val)[j]? = some t ∧
+            Holder (ladderPos cfg (title.map fun c => titleOf c.val)) rest i j cell ∧
+            cell.val = .blank) ∨
+       (cfg.numId ≤ cfg.rules.length ∧ ∀ k, k < cfg.numId →
+          ∃ rule a, cfg.rules[k]? = some rule ∧
+            AttrOk cv (title.map fun c => titleOf c.val) (knownTitles cfg.rules)
+              (Holder (ladderPos cfg (title.map fun c => titleOf c.val)) rest i) rule a ∧
+            a.1.isNone cv = true)) := by
+  rcases one_per_row cv cfg s objs err h with ⟨h1, _⟩ | ⟨pre, title, data, tail, slots, curs, h1, h2, h3, h4, h5, _, _, h8, h9, _, h11⟩
+  · rw [h1] at ho; simp at ho
+  · have hi : i < data.length := by have := getElem?_lt_of_some _ _ _ ho; omega
+    have hcl := (curRows_step _ data none curs h9).1
+    have hic : i < curs.length := by omega
+    have hcon := h11 i curs[i] none (by simp [hic]) ho
+    obtain ⟨hslen, hsall⟩ := bindTitles_spec _ _ _ h4
+    obtain ⟨hn, srcs, hsrcs, hcase⟩ := construct_none cv cfg.numId cfg.rules slots curs[i] hcon
+    have hsl := mapE_length _ _ _ hsrcs
+    have hold : ∀ (j : Nat) (c : Cell), curs[i][j]? = some c →
+        Holder (ladderPos cfg (title.map fun c => titleOf c.val)) (data ++ tail) i j c :=
+      fun j c hjc => Holder.append _ data tail i j c hi
+        (curRows_holder _ data curs h9 i curs[i] j c (by simp [hic]) hjc)
+    refine ⟨hn, pre, title, data ++ tail, h1, h2, h3, ?_⟩
+    rcases hcase with hblank | ⟨attrs, hz, hle, hnone⟩
+    · left
+      intro k hk hkr
+      have hks : k < srcs.length := by omega
+      have hmem : srcs[k] ∈ srcs.take cfg.numId :=
+        List.mem_of_getElem? (by rw [List.getElem?_take]; simp [hk, hks])
+      obtain ⟨c, hc, hb⟩ := hblank _ hmem
+      obtain ⟨sl, hsl', hso⟩ := mapE_get _ _ _ hsrcs k srcs[k] (by simp [hks])
+      rw [hc] at hso
+      obtain ⟨j, hj, hcj⟩ := srcOf_cell _ _ _ hso
+      subst hj
+      have hb' := (bind_sound _ _ _ h4).2 k cfg.rules[k] (.at j) (by simp [hkr]) hsl'
+      cases hr : cfg.rules[k] with
+      | ext d => rw [hr] at hb'; cases hb'
+      | range kind ct opt => rw [hr] at hb'; obtain ⟨ids, hids, _⟩ := hb'; cases hids
+      | col t ct d =>
+        rw [hr] at hb'
+        rcases hb' with ⟨j', hj', ht, _⟩ | ⟨hno, _⟩
+        · cases hj'
+          exact ⟨t, ct, d, j, c, by simp [hkr, hr], ht, hold j c hcj, hb⟩
+        · cases hno
+    · right
+      refine ⟨hle, ?_⟩
+      intro k hk
+      obtain ⟨hal, hget⟩ := zipInit_spec cv cfg.rules srcs attrs hz
+      have hka : k < attrs.length := by omega
+      have hmem : attrs[k] ∈ attrs.take cfg.numId :=
+        List.mem_of_getElem? (by rw [List.getElem?_take]; simp [hk, hka])
+      obtain ⟨r, s', hr, hs', hinit⟩ := hget k attrs[k] (by simp [hka])
+      obtain ⟨sl, hsl', hso⟩ := mapE_get _ _ _ hsrcs k s' hs'
+      have hok := attr_ok cv _ (knownTitles cfg.rules) curs[i] r sl s' attrs[k] (hsall k r sl hr hsl') hso hinit
+      exact ⟨r, attrs[k], hr, AttrOk.mono cv _ _ _ _ hold r _ hok, hnone _ hmem⟩
 
 /-- The wording of the property for a worksheet whose coordinates are pairwise distinct: an
 attribute whose reported origin (`get_attr_origin(attr)`, resp. `get_attr_origin(attr, key)` of a
